@@ -177,4 +177,9 @@ def RunsOK (eqv : Nat → Nat → Bool) : List (List Nat) → Prop
   | g :: g' :: rest =>
     GroupOK eqv g ∧ (∃ h h', g.head? = some h ∧ g'.head? = some h' ∧ eqv h' h = false) ∧ RunsOK eqv (g' :: rest)
 
+/-- no record of a later group is a peer of a record of an earlier group -/
+def SeparateOK (eqv : Nat → Nat → Bool) : List (List Nat) → Prop
+  | [] => True
+  | g :: rest => (∀ y ∈ g, ∀ j ∈ rest.flatten, eqv j y = false) ∧ SeparateOK eqv rest
+
 end Csvq.Analytic
